@@ -24,7 +24,7 @@ def _pane_pairs(m):  # noqa: ANN001
 
 def register(_reg, _mt, STD):  # noqa: ANN001
     _reg('C01', [dispatch.rule_c01_r1, purity.rule_c01_r2, purity.rule_c01_r3, construction.rule_c14_r1, classes_rules.rule_c15_r4, pairs.rule_c03_r1, extra.rule_no_swallowed_rejection,
-                 escape.rule_c04_r1, unions.rule_c11_r1, extra.rule_whole_value_delegation, gates.rule_c02_r6],
+                 escape.rule_c04_r1, unions.rule_c11_r1, extra.rule_whole_value_delegation, gates.rule_c02_r6, memo.rule_c10_r1, extra.rule_keycache_keepalive],
          "Decides three structural necessary conditions of C01, not membership itself: (R1) make_converter, an ordered decision list, is "
          "interpreted abstractly over a catalogue of 67 type kinds (each described by its position in the stdlib class lattice and its "
          "argument shape) and the first admitting arm must be the documented one (exhaustive over kinds; nesting follows by induction since "
@@ -41,7 +41,7 @@ def register(_reg, _mt, STD):  # noqa: ANN001
         STD + " Stdlib lattice facts (issubclass, isabstract) are read from the interpreter's own stdlib classes, as a type checker consults typeshed.")
 
     _reg('C05', [agreement.rule_c05_r1, agreement.rule_c05_r2, agreement.rule_c05_r3, agreement.rule_c05_r4, agreement.rule_c05_r5,
-                 agreement.rule_c05_r6, purity.rule_c01_r3, extra.rule_no_ordering_refs, extra.rule_hashable_writers, dispatch.rule_c01_r1, agreement.rule_c05_r7, unions.rule_c12_r6],
+                 agreement.rule_c05_r6, purity.rule_c01_r3, extra.rule_no_ordering_refs, extra.rule_hashable_writers, dispatch.rule_c01_r1, agreement.rule_c05_r7, unions.rule_c12_r6, unions.rule_c11_r1, purity.rule_c01_r2],
          "Decides writer/reader agreement conditions without which the round trip cannot hold (value equality itself is not decided): what a "
          "scalar converter writes is a kind it reads and interchange scalars map to themselves; every constructing converter overrides "
          "into_data; into_data recurses through the same sub-converters as try_convert; for all 64 naming configurations of a field the "
@@ -54,7 +54,7 @@ def register(_reg, _mt, STD):  # noqa: ANN001
         "table agreement; decision-table extraction by AST specialisation; sibling agreement", "DESIGN.md section 7", STD)
 
     _reg('C06', [agreement.rule_c06_r1, agreement.rule_c06_r2, extra.rule_no_ordering_refs, extra.rule_hashable_writers, agreement.rule_c05_r4,
-                 construction.rule_c14_r2, memo.rule_c10_r2_keyfn, conditions.rule_c13_r1, classes_rules.rule_c15_r2, agreement.rule_c05_r7],
+                 construction.rule_c14_r2, memo.rule_c10_r2_keyfn, conditions.rule_c13_r1, classes_rules.rule_c15_r2, agreement.rule_c05_r7, memo.rule_c10_r1, extra.rule_keycache_keepalive, unions.rule_c11_r1, purity.rule_c01_r2, extra.rule_substitution_early_return],
          "Decides necessary conditions of the fixed-point property: convert() is from_data(into_data(v), T) with handlers forwarded to both; "
          "every scalar converter, the datetime and the pattern converter accept their own target type and their own serialised form; "
          "serialisation never orders or compares members (so it is total on valid typed values); the generated constructor converts every "
@@ -66,7 +66,7 @@ def register(_reg, _mt, STD):  # noqa: ANN001
         "normal-form comparison; table checks; control dependence of the conversion call", "DESIGN.md section 8", STD)
 
     _reg('C07', [errors_rules.rule_c07_r1, errors_rules.rule_c07_r3, errors_rules.rule_c07_r4, errors_rules.rule_c07_r5, pairs.rule_c03_r1,
-                 errors_rules.rule_render_pure],
+                 errors_rules.rule_render_pure, errors_rules.rule_children_keep_order],
          "Decides the structural clauses of C07 over the seven composite diagnostic passes: children of a product node are keyed by the "
          "loop's own key / index and hold the tree reported by that element's own converter (unwrapped); a union node gets exactly one child "
          "per failing member in declaration order; 'extra' collects exactly unknown keys and 'missing' exactly absent required fields; every "
@@ -80,7 +80,7 @@ def register(_reg, _mt, STD):  # noqa: ANN001
 
     _reg('C08', [errors_rules.rule_c08_r1, errors_rules.rule_c08_r2, errors_rules.rule_c08_r3, errors_rules.rule_c08_r4,
                  errors_rules.rule_c08_r5, errors_rules.rule_c08_r6, extra.rule_no_truthiness_default_on_actual, pairs.rule_c03_r1,
-                 errors_rules.rule_render_pure, errors_rules.rule_cause_rendered],
+                 errors_rules.rule_render_pure, errors_rules.rule_cause_rendered, conditions.rule_c13_r2],
          "Decides structural clauses of C08: every field of every error node is used by its renderer; set-valued fields are rendered "
          "through sorted() (determinism across hash seeds); handlers for foreign exceptions attach the exception to the node; the "
          "inside_sum protocol is respected so the DuplicateKeyError assertion cannot trip; every print goes to the file parameter and "
@@ -93,7 +93,7 @@ def register(_reg, _mt, STD):  # noqa: ANN001
         "def-use completeness lint; CFG dominance; who-constructs-where", "DESIGN.md section 10", STD)
 
     _reg('C10', [memo.rule_c10_r1, memo.rule_c10_r2, memo.rule_c10_r3, memo.rule_c10_r4, purity.rule_c10_r5, memo.rule_c10_r6,
-                 extra.rule_tables_immutable, extra.rule_keycache_shared_state, extra.rule_keycache_keepalive, extra.rule_no_one_shot_state],
+                 extra.rule_tables_immutable, extra.rule_keycache_shared_state, extra.rule_keycache_keepalive, extra.rule_no_one_shot_state, extra.rule_no_shared_class_state, extra.rule_no_module_state, construction.rule_c14_r1],
          "Histories and schedules are not enumerated; the property is reduced to ownership and keying rules visible in the source: a cache "
          "keyed by id() of an argument keeps that argument alive for the life of the entry; no memo is keyed by equality of type arguments; "
          "the key covers every parameter and takes the handler set whole; the global handler list has a single writer that runs at import "
@@ -106,7 +106,7 @@ def register(_reg, _mt, STD):  # noqa: ANN001
         "ownership and who-may-write analysis; key-function normal forms; lock-region coverage", "DESIGN.md section 12",
         STD + " Thread interleavings and GC timing are not explored (other technique families).")
 
-    _reg('C11', [unions.rule_c11_r1, unions.rule_c11_r2, unions.rule_c11_r3, memo.rule_c10_r2, purity.rule_c01_r3, escape.rule_c04_r1],
+    _reg('C11', [unions.rule_c11_r1, unions.rule_c11_r2, unions.rule_c11_r3, memo.rule_c10_r2, purity.rule_c01_r3, escape.rule_c04_r1, memo.rule_c10_r1, extra.rule_keycache_keepalive],
          "Decides the structural clauses of C11: from typing.get_args to the member loop only order-preserving, one-to-one constructs occur; "
          "conversion, diagnosis and serialisation iterate the members in order and the first success returns inside the loop; every member "
          "is offered the original input; no memo keyed by type equality and no state on the converter can reorder members between calls. "
@@ -130,7 +130,7 @@ def register(_reg, _mt, STD):  # noqa: ANN001
         "sibling agreement on normal forms; CFG dominance", "DESIGN.md section 14", STD)
 
     _reg('C13', [conditions.rule_c13_r1, conditions.rule_c13_r2, conditions.rule_c13_r3, conditions.rule_c13_r4, conditions.rule_c13_r5,
-                 extra.rule_annotation_flush_args, _cond_escape],
+                 extra.rule_annotation_flush_args, _cond_escape, classes_rules.rule_c17_r9],
          "Decides the structural clauses of C13: the predicate is applied to the converted value, under an Exception handler, and the accepted "
          "value is that value; serialisation ignores conditions; & | ~ all any are the Boolean connectives over every operand; the stock "
          "conditions, being one-expression lambdas, are compared operator by operator (boundaries inclusive) with the documented table and "
@@ -143,7 +143,7 @@ def register(_reg, _mt, STD):  # noqa: ANN001
         "provenance dataflow; operator-table comparison of lambda normal forms; must-pass-through on the CFG", "DESIGN.md section 15", STD)
 
     _reg('C14', [construction.rule_c14_r1, construction.rule_c14_r2, construction.rule_c14_r3, construction.rule_c14_r4, escape.rule_c04_r4,
-                 extra.rule_unchecked_dict_complete, classes_rules.rule_c15_r4],
+                 extra.rule_unchecked_dict_complete, classes_rules.rule_c15_r4, construction.rule_c14_r7, construction.rule_c14_r8],
          "Decides the structural clauses of C14: wherever a default factory's product is stored it is called, inside the per-instance "
          "function; the generated constructor converts every bound argument to its field type under no condition other than the checked "
          "flag; the set-field record is filled only for supplied fields, is computed before defaults on the mapping path, is applied when "
@@ -169,7 +169,7 @@ def register(_reg, _mt, STD):  # noqa: ANN001
         "decision-table extraction; sibling agreement; CFG dominance", "DESIGN.md section 17", STD)
 
     _reg('C16', [classes_rules.rule_c16_r1, classes_rules.rule_c16_r2, classes_rules.rule_c16_r3, classes_rules.rule_c16_r4,
-                 classes_rules.rule_c16_r5, extra.rule_eq_own_origin],
+                 classes_rules.rule_c16_r5, extra.rule_eq_own_origin, construction.rule_c14_r3],
          "Reflexivity, symmetry, transitivity and trichotomy over instances are value-level and not decided. Decided: the hash rule table "
          "equals the standard library's dataclass table cell by cell (exhaustive over the 16-cell option cube) and is indexed in the right "
          "order; every class option is accepted and forwarded; eq / order / hash / repr are computed from exactly the fields flagged for "
@@ -184,7 +184,7 @@ def register(_reg, _mt, STD):  # noqa: ANN001
         "table equality against the stdlib source; normal-form comparison of generated closures", "DESIGN.md section 18", STD)
 
     _reg('C17', [classes_rules.rule_c17_r1, classes_rules.rule_c17_r2, classes_rules.rule_c17_r3, classes_rules.rule_c17_r4,
-                 classes_rules.rule_c15_r3, extra.rule_substitution_early_return, classes_rules.rule_c17_r6, forwarding.rule_spec_substitution_keeps_settings, classes_rules.rule_c17_r7, classes_rules.rule_c17_r8],
+                 classes_rules.rule_c15_r3, extra.rule_substitution_early_return, classes_rules.rule_c17_r6, forwarding.rule_spec_substitution_keeps_settings, classes_rules.rule_c17_r7, classes_rules.rule_c17_r8, classes_rules.rule_c17_r9, classes_rules.rule_c15_r4],
          "Most of C17 quantifies over class-hierarchy programs evaluated at class-creation time from runtime typing objects and is not "
          "statically decidable. Decided clauses: every option reaches the option record as None when unspecified (inherit unless overridden); "
          "type-variable substitution recurses into each form of the type grammar; field specs are merged over reversed(MRO) by in-place update "
@@ -197,7 +197,7 @@ def register(_reg, _mt, STD):  # noqa: ANN001
         "dataflow of option defaults; form-coverage check; write discipline on the merged spec table", "DESIGN.md section 19", STD)
 
     _reg('C18', [dispatch.rule_c18_r1_order, forwarding.rule_c18_r1b, forwarding.rule_c18_r2, forwarding.rule_c18_r3, forwarding.rule_c18_r4,
-                 classes_rules.rule_c17_r1, memo.rule_c10_r3, extra.rule_into_data_keeps_handlers, forwarding.rule_spec_substitution_keeps_settings, forwarding.rule_union_writer_keeps_handlers],
+                 classes_rules.rule_c17_r1, memo.rule_c10_r3, extra.rule_into_data_keeps_handlers, forwarding.rule_spec_substitution_keeps_settings, forwarding.rule_union_writer_keeps_handlers, extra.rule_no_module_state],
          "Decides the structural clauses of C18: on the fall-through path of an ordinary class the dispatch landmarks occur in the documented "
          "order (call-level handlers, HasConverter, scalar tables, registered global handlers, structural arms); handler sets are merged "
          "call-level first, own class before enclosing, and a field's own converter wins; handlers are forwarded at every nested converter "
@@ -211,7 +211,7 @@ def register(_reg, _mt, STD):  # noqa: ANN001
         "abstract interpretation (landmark order); forwarding-completeness lint over resolved callees; sibling agreement", "DESIGN.md section 20", STD)
 
     _reg('C19', [forwarding.rule_c19_r1, forwarding.rule_c19_r2, forwarding.rule_c19_r3, extra.rule_dump_options_closed,
-                 forwarding.rule_io_passes_documents_through],
+                 forwarding.rule_io_passes_documents_through, forwarding.rule_stream_untouched],
          "Text-level round trip through the JSON / YAML libraries is not decidable statically. Decided: every open_file call is a with-context; "
          "paths are opened with the utf-8 default and closed, caller streams are wrapped in nullcontext, a caller's text stream is never "
          "re-wrapped (which would close its buffer) and nothing is closed explicitly; every formatting option, the type and the handlers are "
